@@ -158,7 +158,7 @@ def run(ctx):
     n = 0
     for (f, lim), want in sorted(expected.items(), key=repr):
         n += 1
-        variant = n % 3
+        variant = n % 3      # single-byte concretisations only: the limits count bytes
         body = M.conc_seq(__import__("harness.adapters.c01", fromlist=["x"]).body_symbols(f, ()), variant)
         items_want = M.expected_items(f, variant)
         tot = sum(len(p["content"]) for p in f if p["kind"] == "field")
